@@ -283,7 +283,8 @@ def run_mne(ctx):
     data = (1e4 * np.arange(1, n_ep + 1)[:, None, None] + 1e2 * np.arange(1, n_ch + 1)[None, :, None]
             + np.arange(n_t)[None, None, :]).astype(float) * 1e-6
     ch = [f'EEG{int(v):03d}' for v in rng.permutation(60)[:n_ch]]
-    sfreq = float(gen.pick(rng, [100., 250., 1000.]))
+    # sampling rates whose sample times are whole milliseconds (100, 250, 1000 Hz) and rates where they are not
+    sfreq = float(gen.pick(rng, [100., 250., 1000., 256., 512., 600., 2048.]))
     tmin = float(gen.pick(rng, [-10, 0, 5])) / sfreq     # on the sampling grid (MNE requirement)
     codes = [int(v) for v in rng.integers(1, 5, size=n_ep)]
     events = np.array([[10 * (i + 1), 0, c] for i, c in enumerate(codes)])
@@ -301,7 +302,8 @@ def run_mne(ctx):
         ctx.fail('mne_epochs', dict(sig, what='event_codes'), f'{list(ds.obs_descriptors["event"])} != {codes}', wit())
     if [str(v) for v in ds.channel_descriptors['name']] != ch:
         ctx.fail('mne_epochs', dict(sig, what='channel_names'), 'channel names differ', wit())
-    if not close(np.asarray(ds.time_descriptors['time'], dtype=float), tmin + np.arange(n_t) / sfreq, 1e-12, 1e-12):
+    if not close(np.asarray(ds.time_descriptors['time'], dtype=float), np.asarray(epochs.times, dtype=float), 0, 1e-12) or \
+            not close(np.asarray(ds.time_descriptors['time'], dtype=float), tmin + np.arange(n_t) / sfreq, 1e-9, 1e-9):
         ctx.fail('mne_epochs', dict(sig, what='times'), 'time points differ', wit())
     if ds.descriptors.get('sub') != '01':
         ctx.fail('mne_epochs', dict(sig, what='descriptors'), 'descriptors not carried', wit())
